@@ -179,3 +179,4 @@ def run(ctx):
 
     ctx.include("C17.6", "no finding is dropped by a de-duplication whose outcome depends on the order in which definitions, passes or files were processed: the runner and the writers never narrow a report collection (shared with C03.1)", c03.rule_drain, only=["no-narrowing", "appends-everything"])
     ctx.include("C17.5", "a file that fails to parse does not stop the remaining files from being read (otherwise findings depend on the order of the command line)", c19.rule_user_inputs, only=["parse_files/"])
+    ctx.include("C17.7", "whether a file counts as user input does not depend on the order in which files were read: the user inputs are the set of canonical paths queued from the command line, and the stack holds plain canonical paths (shared with C19.1/C19.4)", c19.rule_canonical, c19.rule_user_inputs)
